@@ -1,6 +1,7 @@
 package c18
 
 import (
+	"bytes"
 	"fmt"
 	"math"
 	"math/big"
@@ -33,6 +34,20 @@ type BootCase struct {
 	Batch   int    `json:"batch"`   // number of ciphertexts (BootstrapMany)
 	Pattern string `json:"pattern"` // message pattern
 	Copy    bool   `json:"copy"`    // run on Evaluator.ShallowCopy()
+	// More: further bootstraps on the SAME evaluator and keys (other level / slot count / batch / entry point / message)
+	More []Step `json:"more,omitempty"`
+	// Serialize: the keys go through EvaluationKeys.WriteTo / ReadFrom (into a receiver that already held other keys) and
+	// the decoded object is the one that is verified and used
+	Serialize bool `json:"serialize,omitempty"`
+}
+
+// Step is one further use of the evaluator.
+type Step struct {
+	API     string `json:"api"`
+	Level   int    `json:"level"`
+	CtSlots int    `json:"ctSlots"`
+	Batch   int    `json:"batch"`
+	Pattern string `json:"pattern"`
 }
 
 func (c BootCase) RandSeed() uint64 { return c.Seed }
@@ -239,6 +254,16 @@ func runBoot(c BootCase, rec *h.Rec) error {
 	rec.Classf("res=%s", c.Cfg.Res)
 	rec.Classf("api=%s", c.API)
 	rec.Classf("pattern=%s", c.Pattern)
+	// ModUp multiplies by round(EvalMod scale / Q0) when Q0 is smaller than the EvalMod scale; the opposite case divides in CoeffsToSlots
+	switch d := float64(b.btp.Mod1ParametersLiteral.LogScale) - math.Log2(float64(p1.Q()[0])); {
+	case d >= 0.9:
+		rec.Class("modup-scalar>=2")
+	case d <= -0.9:
+		rec.Class("evalmod-scale<Q0")
+	}
+	if c.Cfg.Eph == 0 && c.Cfg.K > 16 {
+		rec.Class("dense-main-secret-no-encapsulation")
+	}
 
 	kgen := rlwe.NewKeyGenerator(p1)
 	sk := kgen.GenSecretKeyNew()
@@ -248,6 +273,38 @@ func runBoot(c BootCase, rec *h.Rec) error {
 	}
 	if err := checkKeys(c.Cfg, b, sk, evk, sk2, rec); err != nil {
 		return err
+	}
+	var wire []byte
+	if c.Serialize {
+		rec.Class("serialized-keys")
+		buf := new(bytes.Buffer)
+		n, err := evk.WriteTo(buf)
+		if err != nil {
+			return h.Failf("C18:keys:WriteTo:error", "%v", err)
+		}
+		if int(n) != buf.Len() || buf.Len() != evk.BinarySize() {
+			return h.Failf("C18:keys:WriteTo:size", "WriteTo reports %d bytes, wrote %d, BinarySize() = %d", n, buf.Len(), evk.BinarySize())
+		}
+		wire = append([]byte(nil), buf.Bytes()...)
+		// receiver with a history: every optional key slot already holds a (wrong) key
+		stale := &evk.RelinearizationKey.EvaluationKey
+		dst := &bootstrapping.EvaluationKeys{EvkN1ToN2: stale, EvkN2ToN1: stale, EvkRealToCmplx: stale, EvkCmplxToReal: stale, EvkDenseToSparse: stale, EvkSparseToDense: stale,
+			MemEvaluationKeySet: rlwe.NewMemEvaluationKeySet(nil)}
+		m, err := dst.ReadFrom(bytes.NewReader(wire))
+		if err != nil {
+			return h.Failf("C18:keys:ReadFrom:error", "%v", err)
+		}
+		if int(m) != len(wire) {
+			return h.Failf("C18:keys:ReadFrom:size", "ReadFrom consumed %d of %d bytes", m, len(wire))
+		}
+		// the decoded object must satisfy the exact key oracle on its own (a stale slot shows up as a presence error)
+		if err := checkKeys(c.Cfg, b, sk, dst, sk2, rec); err != nil {
+			if f, ok := err.(*h.Failure); ok {
+				return h.Failf(f.Key+":after-ReadFrom", "%s", f.Msg)
+			}
+			return err
+		}
+		evk = dst
 	}
 	eval, err := bootstrapping.NewEvaluator(b.btp, evk)
 	if err != nil {
@@ -271,160 +328,200 @@ func runBoot(c BootCase, rec *h.Rec) error {
 	ecd := ckks.NewEncoder(p1)
 	enc := rlwe.NewEncryptor(p1, sk)
 	dec := rlwe.NewDecryptor(p1, sk)
-	rng := h.NewSplitMix(c.Seed)
-	n := 1 << c.CtSlots
-	base := genValues(c.Pattern, n, p1.RingType() == ring.ConjugateInvariant, rng)
+	var firstWant []complex128
+	full := c
+	// runStep is one use of the evaluator; every use is judged by the same oracle
+	runStep := func(c BootCase, idx int) error {
+		rng := h.NewSplitMix(c.Seed + uint64(idx)*0x9e3779b97f4a7c15)
+		n := 1 << c.CtSlots
+		base := genValues(c.Pattern, n, p1.RingType() == ring.ConjugateInvariant, rng)
 
-	batch := c.Batch
-	if c.API != "BootstrapMany" {
-		batch = 1
-	}
-	want := make([][]complex128, batch)
-	cts := make([]rlwe.Ciphertext, batch)
-	sineFloor := make([]float64, batch)
-	for i := range cts {
-		want[i] = rotate(base, i)
-		ct, pt, err := encodeEncrypt(p1, ecd, enc, want[i], c.Level, c.CtSlots)
-		if err != nil {
-			return h.Failf("C18:harness:encrypt", "%v", err)
+		batch := c.Batch
+		if c.API != "BootstrapMany" {
+			batch = 1
 		}
-		cts[i] = *ct
-		sineFloor[i] = sineApproxFloor(b, pt)
-	}
-
-	shared := sharedPrime(b.lit.SlotsToCoeffsFactorizationDepthAndLogScales) || sharedPrime(b.lit.CoeffsToSlotsFactorizationDepthAndLogScales)
-	sharedKnown := func(what string) (bool, error) {
-		if !shared {
-			return false, nil
-		}
-		// several DFT matrices on one prime: every matrix is followed by an unconditional Rescale
-		key := "C18:dft:shared-prime-factorisation:level-and-message-lost"
-		msg := fmt.Sprintf("factorisation S2C=%v C2S=%v: %s", b.lit.SlotsToCoeffsFactorizationDepthAndLogScales, b.lit.CoeffsToSlotsFactorizationDepthAndLogScales, what)
-		if rec.Known(key, msg) {
-			rec.Class("known=shared-prime-factorisation")
-			return true, nil
-		}
-		return true, h.Failf(key, "%s", msg)
-	}
-
-	var outs []rlwe.Ciphertext
-	start := time.Now()
-	switch c.API {
-	case "Bootstrap":
-		o, err := eval.Bootstrap(&cts[0])
-		if err != nil {
-			if k, e := sharedKnown(err.Error()); k {
-				return e
+		want := make([][]complex128, batch)
+		cts := make([]rlwe.Ciphertext, batch)
+		sineFloor := make([]float64, batch)
+		for i := range cts {
+			want[i] = rotate(base, i)
+			ct, pt, err := encodeEncrypt(p1, ecd, enc, want[i], c.Level, c.CtSlots)
+			if err != nil {
+				return h.Failf("C18:harness:encrypt", "%v", err)
 			}
-			return h.Failf("C18:Bootstrap:error", "%v", err)
+			cts[i] = *ct
+			sineFloor[i] = sineApproxFloor(b, pt)
 		}
-		outs = []rlwe.Ciphertext{*o}
-	case "BootstrapMany":
-		var pan any
-		func() {
-			defer func() { pan = recover() }()
-			outs, err = eval.BootstrapMany(cts)
-		}()
-		if pan != nil {
-			// several sparsely packed ciphertexts above level 0 have to be merged: the monomials X^(N/2^k) used by
-			// Evaluator.pack are only allocated at level 0
-			if batch >= 2 && c.Level == 0 && c.Copy && c.Cfg.Res == "small" {
-				key := "C18:ShallowCopy:ring-degree-switch:xPow2InvN1-missing:panic"
-				msg := fmt.Sprintf("BootstrapMany of %d ciphertexts with 2^%d slots on Evaluator.ShallowCopy() with N1 < N2 panics: %v", batch, c.CtSlots, pan)
-				if rec.Known(key, msg) {
-					rec.Class("known=shallowcopy-xPow2InvN1")
-					return nil
+
+		shared := sharedPrime(b.lit.SlotsToCoeffsFactorizationDepthAndLogScales) || sharedPrime(b.lit.CoeffsToSlotsFactorizationDepthAndLogScales)
+		sharedKnown := func(what string) (bool, error) {
+			if !shared {
+				return false, nil
+			}
+			// several DFT matrices on one prime: every matrix is followed by an unconditional Rescale
+			key := "C18:dft:shared-prime-factorisation:level-and-message-lost"
+			msg := fmt.Sprintf("factorisation S2C=%v C2S=%v: %s", b.lit.SlotsToCoeffsFactorizationDepthAndLogScales, b.lit.CoeffsToSlotsFactorizationDepthAndLogScales, what)
+			if rec.Known(key, msg) {
+				rec.Class("known=shared-prime-factorisation")
+				return true, nil
+			}
+			return true, h.Failf(key, "%s", msg)
+		}
+
+		var outs []rlwe.Ciphertext
+		start := time.Now()
+		switch c.API {
+		case "Bootstrap":
+			o, err := eval.Bootstrap(&cts[0])
+			if err != nil {
+				if k, e := sharedKnown(err.Error()); k {
+					return e
 				}
-				return h.Failf(key, "%s", msg)
+				return h.Failf("C18:Bootstrap:error", "%v", err)
 			}
-			if batch >= 2 && c.Level >= 1 {
-				key := "C18:BootstrapMany:pack:input-level>0:panic"
-				msg := fmt.Sprintf("BootstrapMany of %d ciphertexts with 2^%d slots at level %d panics: %v", batch, c.CtSlots, c.Level, pan)
-				if rec.Known(key, msg) {
-					rec.Class("known=pack-level>0")
-					return nil
+			outs = []rlwe.Ciphertext{*o}
+		case "BootstrapMany":
+			var pan any
+			func() {
+				defer func() { pan = recover() }()
+				outs, err = eval.BootstrapMany(cts)
+			}()
+			if pan != nil {
+				// several sparsely packed ciphertexts above level 0 have to be merged: the monomials X^(N/2^k) used by
+				// Evaluator.pack are only allocated at level 0
+				if batch >= 2 && c.Level == 0 && c.Copy && c.Cfg.Res == "small" {
+					key := "C18:ShallowCopy:ring-degree-switch:xPow2InvN1-missing:panic"
+					msg := fmt.Sprintf("BootstrapMany of %d ciphertexts with 2^%d slots on Evaluator.ShallowCopy() with N1 < N2 panics: %v", batch, c.CtSlots, pan)
+					if rec.Known(key, msg) {
+						rec.Class("known=shallowcopy-xPow2InvN1")
+						return nil
+					}
+					return h.Failf(key, "%s", msg)
 				}
-				return h.Failf(key, "%s", msg)
+				if batch >= 2 && c.Level >= 1 {
+					key := "C18:BootstrapMany:pack:input-level>0:panic"
+					msg := fmt.Sprintf("BootstrapMany of %d ciphertexts with 2^%d slots at level %d panics: %v", batch, c.CtSlots, c.Level, pan)
+					if rec.Known(key, msg) {
+						rec.Class("known=pack-level>0")
+						return nil
+					}
+					return h.Failf(key, "%s", msg)
+				}
+				panic(pan)
 			}
-			panic(pan)
-		}
-		if err != nil {
-			if k, e := sharedKnown(err.Error()); k {
-				return e
+			if err != nil {
+				if k, e := sharedKnown(err.Error()); k {
+					return e
+				}
+				return h.Failf("C18:BootstrapMany:error", "%v", err)
 			}
-			return h.Failf("C18:BootstrapMany:error", "%v", err)
-		}
-	case "Evaluate":
-		o, err := eval.Evaluate(&cts[0])
-		if err != nil {
-			if k, e := sharedKnown(err.Error()); k {
-				return e
+		case "Evaluate":
+			o, err := eval.Evaluate(&cts[0])
+			if err != nil {
+				if k, e := sharedKnown(err.Error()); k {
+					return e
+				}
+				return h.Failf("C18:Evaluate:error", "%v", err)
 			}
-			return h.Failf("C18:Evaluate:error", "%v", err)
+			outs = []rlwe.Ciphertext{*o}
+		default:
+			return fmt.Errorf("unknown api %q", c.API)
 		}
-		outs = []rlwe.Ciphertext{*o}
-	default:
-		return fmt.Errorf("unknown api %q", c.API)
-	}
-	rec.Note("boot_s", time.Since(start).Seconds())
+		rec.Note(fmt.Sprintf("boot_s%d", idx), time.Since(start).Seconds())
 
-	if len(outs) != batch {
-		return h.Failf("C18:"+c.API+":count", "%d ciphertexts in, %d out", batch, len(outs))
-	}
-	// Mean-precision floor. The literal's own circuit options at (nearly) full packing: the formula of the repository's
-	// bootstrapping test. Overridden circuit options, very sparse packing (LogSlots < LogN-3) and the iterated mode: only
-	// the flat 12 bits the repository asserts on its raw-circuit tests (evaluator_test.go: minPrec), never more than the formula.
-	floor := repoFloor(p1)
-	ownOptions := c.Cfg.LogP == nil && c.Cfg.Mod1 == "" && c.Cfg.C2S == nil && c.Cfg.S2C == nil && c.Cfg.InvDeg < 0 && c.Cfg.Iter == nil && c.Cfg.LogSlots >= c.Cfg.LogN-3
-	if !ownOptions {
-		floor = math.Min(floor, 12)
-		if c.Cfg.Iter != nil {
-			floor = 12
+		if len(outs) != batch {
+			return h.Failf("C18:"+c.API+":count", "%d ciphertexts in, %d out", batch, len(outs))
 		}
-		rec.Class("floor=flat12")
-	} else {
-		rec.Class("floor=formula")
-	}
-	// When scale*MessageRatio exceeds Q0 (small Q0 sets with the small-ring message-ratio correction) ScaleDown brings the
-	// message DOWN to Q0/MessageRatio before the circuit: the bits lost there are not available to any floor.
-	if lost := float64(p1.LogDefaultScale()+b.btp.Mod1ParametersLiteral.LogMessageRatio) - math.Round(math.Log2(float64(p1.Q()[0]))); lost > 0 && c.Cfg.Iter == nil {
-		floor -= lost
-		rec.Class("floor-reduced-by-scale-down")
-	}
-	rec.Note("floor", floor)
-	for i := range outs {
-		o := &outs[i]
-		if o.Level() != eval.OutputLevel() {
-			if k, e := sharedKnown(fmt.Sprintf("output level %d, announced OutputLevel %d", o.Level(), eval.OutputLevel())); k {
-				return e
+		// Mean-precision floor. The literal's own circuit options at (nearly) full packing: the formula of the repository's
+		// bootstrapping test. Overridden circuit options, very sparse packing (LogSlots < LogN-3) and the iterated mode: only
+		// the flat 12 bits the repository asserts on its raw-circuit tests (evaluator_test.go: minPrec), never more than the formula.
+		floor := repoFloor(p1)
+		ownOptions := c.Cfg.EvalScale < 0 && c.Cfg.K < 0 && c.Cfg.LogP == nil && c.Cfg.Mod1 == "" && c.Cfg.C2S == nil && c.Cfg.S2C == nil && c.Cfg.InvDeg < 0 && c.Cfg.Iter == nil && c.Cfg.LogSlots >= c.Cfg.LogN-3
+		if !ownOptions {
+			floor = math.Min(floor, 12)
+			if c.Cfg.Iter != nil {
+				floor = 12
 			}
-			return h.Failf("C18:"+c.API+":output-level", "ciphertext %d: level %d, announced OutputLevel %d", i, o.Level(), eval.OutputLevel())
+			rec.Class("floor=flat12")
+		} else {
+			rec.Class("floor=formula")
 		}
-		if c.API != "Evaluate" && !o.Scale.Equal(p1.DefaultScale()) {
-			return h.Failf("C18:"+c.API+":output-scale", "ciphertext %d: scale 2^%.4f, default scale 2^%d", i, o.Scale.Log2(), p1.LogDefaultScale())
+		// When scale*MessageRatio exceeds Q0 (small Q0 sets with the small-ring message-ratio correction) ScaleDown brings the
+		// message DOWN to Q0/MessageRatio before the circuit: the bits lost there are not available to any floor.
+		if lost := float64(p1.LogDefaultScale()+b.btp.Mod1ParametersLiteral.LogMessageRatio) - math.Round(math.Log2(float64(p1.Q()[0]))); lost > 0 && c.Cfg.Iter == nil {
+			floor -= lost
+			rec.Class("floor-reduced-by-scale-down")
 		}
-		if o.LogDimensions.Cols != c.CtSlots {
-			return h.Failf("C18:"+c.API+":output-dimensions", "ciphertext %d: LogSlots %d, input had %d", i, o.LogDimensions.Cols, c.CtSlots)
+		rec.Note("floor", floor)
+		for i := range outs {
+			o := &outs[i]
+			if o.Level() != eval.OutputLevel() {
+				if k, e := sharedKnown(fmt.Sprintf("output level %d, announced OutputLevel %d", o.Level(), eval.OutputLevel())); k {
+					return e
+				}
+				return h.Failf("C18:"+c.API+":output-level", "ciphertext %d: level %d, announced OutputLevel %d", i, o.Level(), eval.OutputLevel())
+			}
+			if c.API != "Evaluate" && !o.Scale.Equal(p1.DefaultScale()) {
+				return h.Failf("C18:"+c.API+":output-scale", "ciphertext %d: scale 2^%.4f, default scale 2^%d", i, o.Scale.Log2(), p1.LogDefaultScale())
+			}
+			if o.LogDimensions.Cols != c.CtSlots {
+				return h.Failf("C18:"+c.API+":output-dimensions", "ciphertext %d: LogSlots %d, input had %d", i, o.LogDimensions.Cols, c.CtSlots)
+			}
+			have, err := decryptDecode(p1, ecd, dec, o)
+			if err != nil {
+				return h.Failf("C18:harness:decode", "%v", err)
+			}
+			ps := precision(want[i], have)
+			rec.Note(fmt.Sprintf("prec%d.%d", idx, i), fmt.Sprintf("avg %.1f/%.1f min %.1f/%.1f", ps.avgRe, ps.avgIm, ps.minRe, ps.minIm))
+			floor := math.Min(floor, sineFloor[i])
+			if ps.avgRe < floor || ps.avgIm < floor {
+				return h.Failf("C18:"+c.API+":precision:mean", "ciphertext %d: mean precision real %.2f / imag %.2f bits < floor %.2f bits", i, ps.avgRe, ps.avgIm, floor)
+			}
+			wfloor := floor - 0.5*float64(c.CtSlots) - 3
+			if ps.minRe < wfloor || ps.minIm < wfloor {
+				return h.Failf("C18:"+c.API+":precision:worst-slot", "ciphertext %d: worst-slot precision real %.2f / imag %.2f bits < %.2f bits", i, ps.minRe, ps.minIm, wfloor)
+			}
 		}
-		have, err := decryptDecode(p1, ecd, dec, o)
-		if err != nil {
-			return h.Failf("C18:harness:decode", "%v", err)
+
+		if idx == 0 {
+			firstWant = want[0]
 		}
-		ps := precision(want[i], have)
-		rec.Note(fmt.Sprintf("prec%d", i), fmt.Sprintf("avg %.1f/%.1f min %.1f/%.1f", ps.avgRe, ps.avgIm, ps.minRe, ps.minIm))
-		floor := math.Min(floor, sineFloor[i])
-		if ps.avgRe < floor || ps.avgIm < floor {
-			return h.Failf("C18:"+c.API+":precision:mean", "ciphertext %d: mean precision real %.2f / imag %.2f bits < floor %.2f bits", i, ps.avgRe, ps.avgIm, floor)
+		return nil
+	}
+	if err := runStep(c, 0); err != nil {
+		return err
+	}
+	for i, st := range full.More {
+		sc := full
+		sc.API, sc.Level, sc.CtSlots, sc.Batch, sc.Pattern = st.API, st.Level, st.CtSlots, st.Batch, st.Pattern
+		if err := runStep(sc, i+1); err != nil {
+			if f, ok := err.(*h.Failure); ok {
+				return h.Failf(f.Key+":reused-evaluator", "use %d of the same evaluator (%s, level %d, 2^%d slots, batch %d): %s", i+2, st.API, st.Level, st.CtSlots, st.Batch, f.Msg)
+			}
+			return err
 		}
-		wfloor := floor - 0.5*float64(c.CtSlots) - 3
-		if ps.minRe < wfloor || ps.minIm < wfloor {
-			return h.Failf("C18:"+c.API+":precision:worst-slot", "ciphertext %d: worst-slot precision real %.2f / imag %.2f bits < %.2f bits", i, ps.minRe, ps.minIm, wfloor)
-		}
+	}
+	if len(full.More) > 0 {
+		rec.Classf("uses=%d", len(full.More)+1)
+	}
+	if firstWant == nil {
+		return nil // a listed finding ended the first use
 	}
 
 	if c.Cfg.Iter != nil {
-		if err := iterOracle(c, b, eval, sk, want[0], rec); err != nil {
+		if err := iterOracle(c, b, eval, sk, firstWant, rec); err != nil {
 			return err
+		}
+	}
+
+	// the bootstrapping must leave its keys untouched
+	if wire != nil {
+		buf := new(bytes.Buffer)
+		if _, err := evk.WriteTo(buf); err != nil {
+			return h.Failf("C18:keys:WriteTo:error", "%v", err)
+		}
+		if !bytes.Equal(buf.Bytes(), wire) {
+			return h.Failf("C18:keys:modified-by-bootstrap", "the serialised evaluation keys differ before and after %d bootstraps", len(full.More)+1)
 		}
 	}
 
@@ -450,7 +547,7 @@ func runBoot(c BootCase, rec *h.Rec) error {
 	if !rk.rlk {
 		return h.Failf("C18:keys:rlk:never-used", "relinearization key never looked up")
 	}
-	rec.NonTrivial(fmt.Sprintf("%s/%s/lvl%d/slots-%d/b%d/%s/copy%v", c.Cfg.optionClass(), c.API, c.Level, c.Cfg.LogN-1-c.CtSlots, batch, c.Pattern, c.Copy))
+	rec.NonTrivial(fmt.Sprintf("%s/%s/lvl%d/slots-%d/b%d/%s/copy%v/uses%d/ser%v", c.Cfg.optionClass(), c.API, c.Level, c.Cfg.LogN-1-c.CtSlots, c.Batch, c.Pattern, c.Copy, len(c.More)+1, c.Serialize))
 	return nil
 }
 
@@ -563,7 +660,7 @@ func genBootCase(t *rapid.T) BootCase {
 	if mode == 0 {
 		cfg.Base = []string{"S0", "D0", "T45"}[draw(t, "iterBase", 3)]
 		cfg.Iter, cfg.Reserved = genIter(t)
-		cfg.Mod1, cfg.Mod1Deg, cfg.DblAngle, cfg.InvDeg = "", -1, -1, -1
+		cfg.Mod1, cfg.Mod1Deg, cfg.DblAngle, cfg.InvDeg, cfg.K, cfg.EvalScale = "", -1, -1, -1, -1, -1
 		cfg.C2S, cfg.S2C, cfg.LogP = nil, nil, nil
 		cfg.LogSlots = cfg.LogN - 1 - draw(t, "sparsity", 3)
 		cfg.MsgCorr = minInt(maxInt(15-cfg.LogSlots, 0), 8)
@@ -580,12 +677,17 @@ func genBootCase(t *rapid.T) BootCase {
 		c.API, c.Level, c.CtSlots, c.Batch = "Evaluate", 1, cfg.LogSlots, 1
 		c.Pattern = patterns[draw(t, "pattern", 3)]
 		c.Copy = draw(t, "copy", 4) == 0
+		c.Serialize = cfg.LogN <= 9 && draw(t, "serialize", 4) == 0
 		return c
 	}
 	// half of the cases keep the literal's own circuit options at (nearly) full packing: the announced-precision domain
 	if mode <= 4 {
-		cfg.Mod1, cfg.Mod1Deg, cfg.DblAngle, cfg.InvDeg = "", -1, -1, -1
+		cfg.Mod1, cfg.Mod1Deg, cfg.DblAngle, cfg.InvDeg, cfg.K, cfg.EvalScale = "", -1, -1, -1, -1, -1
 		cfg.C2S, cfg.S2C, cfg.Iter, cfg.Reserved = nil, nil, nil, 0
+		if cfg.Eph == 0 {
+			// default K = 16: the main secret that goes through ModUp stays sparse
+			cfg.H1, cfg.H2 = minInt(cfg.H1, 32), minInt(cfg.H2, 32)
+		}
 		if cfg.Res != "ci" {
 			cfg.LogSlots = cfg.LogN - 1 - draw(t, "sparsity", 3)
 		}
@@ -598,19 +700,34 @@ func genBootCase(t *rapid.T) BootCase {
 		cfg.S2C = clampDepth([][]int{{30}, {30}}, cfg.LogSlots)
 	}
 
-	// API
-	switch draw(t, "api", 4) {
+	first := genStep(t, cfg, b, "s0")
+	c.API, c.Level, c.CtSlots, c.Batch, c.Pattern = first.API, first.Level, first.CtSlots, first.Batch, first.Pattern
+	c.Copy = draw(t, "copy", 4) == 0
+	// history: the same evaluator (and keys) bootstraps again with another level / slot count / batch / entry point
+	if draw(t, "reuse", 2) == 0 {
+		nMore := rapid.IntRange(1, 2).Draw(t, "nMore")
+		for i := 0; i < nMore; i++ {
+			c.More = append(c.More, genStep(t, cfg, b, fmt.Sprintf("s%d", i+1)))
+		}
+	}
+	c.Serialize = cfg.LogN <= 9 && draw(t, "serialize", 3) == 0
+	return c
+}
+
+// genStep draws one use of the evaluator.
+func genStep(t *rapid.T, cfg *Cfg, b baseLit, label string) (st Step) {
+	switch draw(t, label+"api", 4) {
 	case 0:
-		c.API = "Bootstrap"
+		st.API = "Bootstrap"
 	case 1:
-		c.API = "Evaluate"
+		st.API = "Evaluate"
 		if cfg.Res != "eq" {
-			c.API = "Bootstrap"
+			st.API = "Bootstrap"
 		}
 	default:
-		c.API = "BootstrapMany"
+		st.API = "BootstrapMany"
 	}
-	c.Batch = rapid.IntRange(1, 4).Draw(t, "batch")
+	st.Batch = rapid.IntRange(1, 4).Draw(t, label+"batch")
 
 	// slots of the ciphertexts: 1 .. min(bootstrapping LogSlots, residual maximum)
 	maxCt := cfg.LogSlots
@@ -622,24 +739,23 @@ func genBootCase(t *rapid.T) BootCase {
 		maxCt = resMax
 	}
 	switch {
-	case c.API == "Evaluate" || cfg.Res == "ci":
-		c.CtSlots = maxCt
-	case draw(t, "ctSlotsKind", 3) == 0:
-		c.CtSlots = maxCt
+	case st.API == "Evaluate" || cfg.Res == "ci":
+		st.CtSlots = maxCt
+	case draw(t, label+"ctSlotsKind", 3) == 0:
+		st.CtSlots = maxCt
 	default:
-		c.CtSlots = rapid.IntRange(maxInt(1, maxCt-4), maxCt).Draw(t, "ctSlots")
+		st.CtSlots = rapid.IntRange(maxInt(1, maxCt-4), maxCt).Draw(t, label+"ctSlots")
 	}
 
 	// input level: minimum .. residual maximum. Level 0 is admissible when the (power-of-two) scale fits under
 	// Q0/MessageRatio (doc comment of Evaluator.Evaluate), otherwise one level is needed for the scale matching.
-	c.Level = rapid.IntRange(0, cfg.NQ-1).Draw(t, "level")
+	st.Level = rapid.IntRange(0, cfg.NQ-1).Draw(t, label+"level")
 	mr, _ := b.btp.GetLogMessageRatio()
-	if c.Level == 0 && b.scheme.LogDefaultScale+mr+cfg.MsgCorr > b.scheme.LogQ[0] {
-		c.Level = 1
+	if st.Level == 0 && b.scheme.LogDefaultScale+mr+cfg.MsgCorr > b.scheme.LogQ[0] {
+		st.Level = 1
 	}
-	c.Pattern = patterns[draw(t, "pattern", len(patterns))]
-	c.Copy = draw(t, "copy", 4) == 0
-	return c
+	st.Pattern = patterns[draw(t, label+"pattern", len(patterns))]
+	return st
 }
 
 var propBoot = h.NewProp("TestPropBootstrap", h.Budget{Quick: 160, Thorough: 1600}, genBootCase, runBoot)
